@@ -17,6 +17,7 @@ import (
 	"go/constant"
 	"go/token"
 	"go/types"
+	"math"
 	"math/big"
 	"os"
 	"sort"
@@ -166,10 +167,11 @@ func (e *oEnv) set(o types.Object, v oval) {
 func (e *oEnv) define(o types.Object, v oval) { e.vars[o] = &v }
 
 type oInterp struct {
+	floatClass *floatClass      // set: ordinates lie in one region of the float64 line (floatclass.go)
 	mutexState map[*oStruct]int // sync.Mutex / RWMutex values: -1 held exclusively, n > 0 shared by n
 	libPanic   string           // set by a library model that found the call fatal; raised by the caller
-	p        *Prog
-	maxDepth int
+	p          *Prog
+	maxDepth   int
 	// mapReverse makes `range` over a map visit the entries in the reverse of insertion order: a
 	// driver that runs a scenario under both orders and compares the outcomes decides whether the
 	// code depends on Go's unspecified map iteration order; mapRanges counts such loops (≥2 entries)
@@ -1223,6 +1225,11 @@ func (fr *oFrame) eval(e ast.Expr) oval {
 						return oSym{p}
 					}
 				}
+				if fr.it.floatClass != nil {
+					if fv, _ := constant.Float64Val(tv.Value); !math.IsInf(fv, 0) {
+						return oConstF{fv}
+					}
+				}
 				return oTop{"float constant " + tv.Value.String()}
 			}
 			if i, ok := constant.Int64Val(tv.Value); ok {
@@ -1232,6 +1239,11 @@ func (fr *oFrame) eval(e ast.Expr) oval {
 			if fr.it.symbolic {
 				if p, ok := symFromConstant(tv.Value); ok {
 					return oSym{p}
+				}
+			}
+			if fr.it.floatClass != nil {
+				if fv, _ := constant.Float64Val(tv.Value); !math.IsInf(fv, 0) {
+					return oConstF{fv}
 				}
 			}
 			return oTop{"float constant " + tv.Value.String()}
@@ -1562,6 +1574,11 @@ func (fr *oFrame) call(call *ast.CallExpr) []oval {
 	// conversions
 	if tv, ok := fr.info.Types[call.Fun]; ok && tv.IsType() && len(call.Args) == 1 {
 		v := fr.eval(call.Args[0])
+		if fr.it.floatClass != nil {
+			if nv, ok := fr.it.floatClass.convert(v, tv.Type); ok {
+				return one(nv)
+			}
+		}
 		if s, ok := v.(*oStruct); ok {
 			c := s.clone()
 			c.typ = tv.Type
@@ -2924,6 +2941,11 @@ func wrapInt(v oval, t types.Type) oval {
 
 // compareVals decides an ordering or equality test of two evaluated operands.
 func (it *oInterp) compareVals(op token.Token, l, r oval) oval {
+	if it.floatClass != nil {
+		if v, ok := it.floatClass.compare(op, l, r); ok {
+			return v
+		}
+	}
 	lf, lok := l.(oFloat)
 	rf, rok := r.(oFloat)
 	if lok && rok {
